@@ -6,7 +6,7 @@ ids = [json.loads(l)["id"] for l in open(os.path.join(HERE, "properties.jsonl"))
 
 T = {
  "C01": ("real client process vs forging reference responder; reference-verifier oracle (runtime monitor)",
-         "Held on the explored executions of the real roughenough-client binary: 31 forgery operators (incl. correctly signed but malformed responses) x both protocols x hex (lower/upper/mixed case) / base64 pinned key x plain/json/verbose x -n 1..16, each delivered datagram classified by an independent verifier; a violation is a concrete client run that printed a time / exited 0 for a response the reference rejects. Exploration, not proof: operators and random mutations sample the space of hostile datagrams.",
+         "Held on the explored executions of the real roughenough-client binary: 35 forgery operators (incl. correctly signed but malformed responses, malleated (R, S+L) signatures and unsigned top-level tags overriding the signed ones), keys given in unreadable spellings, x both protocols x hex (lower/upper/mixed case) / base64 pinned key x plain/json/verbose x -n 1..16, each delivered datagram classified by an independent verifier; a violation is a concrete client run that printed a time / exited 0 for a response the reference rejects. Exploration, not proof: operators and random mutations sample the space of hostile datagrams.",
          "Trusted: reference codec/verifier/responder in harness/src/refimpl (ring Ed25519, sha2 SHA-512), loopback UDP, client observed only through argv/exit status/stdout/stderr."),
  "C02": ("stepped in-process Server; every emitted datagram checked by an independent spec-derived verifier (runtime monitor)",
          "Every datagram a real Server emitted on the explored histories (every batch_size 1..=64, bursts below/at/above it, mixed protocols, request sizes 1024..=1500, long runs on one server) verified under the reference verifier (own key derivation from the seed, 32-byte truncated hash at every IETF node, leaf over the whole packet, NONC echo, INDX/PATH consistency, VER/VERS); fault injection: failing share within 6 sigma of p over >= 2000 replies. Exploration over seeds/histories.",
@@ -24,7 +24,7 @@ T = {
          "No panic and no value bytes differing from the input on every explored byte string (lengths 0..=65536: exhaustive small scope, random strings, count/offset/tag mutants, nested-garbage carriers, nesting to 8000 levels), and Display returned normally for every accepted message. Exploration; sanitizer layers add undefined-behaviour detection on the same paths.",
          "Trusted: catch_unwind observes all panics (stack exhaustion is observed as a child-process signal); a formatting run longer than 25 s is recorded as slow, not as a verdict."),
  "C07": ("stepped in-process Server, one datagram per socket per round; reply => independently well-formed request, |reply| <= |request| (runtime monitor)",
-         "On the explored datagrams (lengths 0..=65507, 30 hostile classes, all aligned nonce lengths, frame-length sweeps, sizes around both window edges, full batches for every batch_size 1..=64) a reply was observed only for datagrams the independent predicate accepts, and no reply was longer than the datagram that elicited it. Exploration.",
+         "On the explored datagrams (lengths 0..=65507, 40 hostile classes, all aligned nonce lengths, frame-length sweeps, sizes around both window edges, full batches for every batch_size 1..=64) a reply was observed only for datagrams the independent predicate accepts, and no reply was longer than the datagram that elicited it. Exploration.",
          "Trusted: reference request predicate; a sentinel reply proves earlier datagrams were processed (FIFO socket, synchronous sends)."),
  "C08": ("stepped in-process Server under a capturing logger at each level; catch_unwind + sentinel oracle (runtime monitor; ASan layer in thorough)",
          "process_events never unwound and a following valid request was answered with a verifying reply for every explored datagram sequence at every log level Off..Trace, fault_percentage {0,1,25,50}, batch_size {1,2,7,63,64}. Exploration over sequences.",
